@@ -39,6 +39,28 @@ pub fn run_field_json<T: SwiftField + serde::Serialize + serde::de::DeserializeO
     }
 }
 
+/// content -> value -> text -> value -> text
+pub fn run_field_roundtrip<T: SwiftField + serde::Serialize + std::fmt::Debug>(content: &str) -> Value {
+    let v = match T::parse(content) {
+        Ok(v) => v,
+        Err(e) => return json!({"ok": false, "display": e.to_string()}),
+    };
+    let swift = v.to_swift_string();
+    // content after ":TAG:"
+    let body = match swift[1..].find(':') {
+        Some(i) => &swift[i + 2..],
+        None => "",
+    };
+    match T::parse(body) {
+        Ok(v2) => {
+            let swift2 = v2.to_swift_string();
+            json!({"ok": true, "swift": swift, "reparse_ok": true, "swift2": swift2,
+                   "same_value": format!("{:?}", v) == format!("{:?}", v2)})
+        }
+        Err(e) => json!({"ok": true, "swift": swift, "reparse_ok": false, "reparse_error": e.to_string()}),
+    }
+}
+
 /// MT content -> value -> JSON -> value: is the value unchanged by the JSON round trip?
 pub fn run_codec_roundtrip<T: SwiftField + serde::Serialize + serde::de::DeserializeOwned + std::fmt::Debug>(content: &str) -> Value {
     let v = match T::parse(content) {
@@ -229,6 +251,7 @@ pub fn run(item: &Value) -> Value {
             }
         }
         "field_json" => crate::api_gen::field_json(ty, &item["json"]).unwrap_or(json!({"error": "unknown field type"})),
+        "field_roundtrip" => crate::api_gen::field_roundtrip(ty, item["content"].as_str().unwrap_or("")).unwrap_or(json!({"error": "unknown field type"})),
         "codec_roundtrip" => crate::api_gen::codec_roundtrip(ty, item["content"].as_str().unwrap_or("")).unwrap_or(json!({"error": "unknown field type"})),
         "block4" => crate::api_gen::block4(ty, item["text"].as_str().unwrap_or("")).unwrap_or(json!({"error": "unknown message type"})),
         "validate" => crate::api_gen::validate(ty, item["text"].as_str().unwrap_or("")).unwrap_or(json!({"error": "unknown message type"})),
